@@ -15,7 +15,7 @@ def cell(v):
     if v is None:
         return 'not run'
     if v['detected']:
-        return f"**VIOLATION** ({v['wall_s']} s)"
+        return f"**VIOLATION** ({v['wall_s']} s)" if v.get('replayed', True) else f"**counterexample** (replay skipped, {v['wall_s']} s)"
     if v['exit'] == 2:
         return f"inconclusive ({', '.join(v['inconclusive'][:2]) or 'see log'})"
     return f"missed (exit {v['exit']})"
